@@ -83,6 +83,28 @@ MUTANTS = [
      "                                except BrokenPipeError as err:\n                                    self.disconnect_module(src)"),
     ("c03_unchecked_index", "C03", M,
      "            if 0 <= mt < cd.MAX_MESSAGE_TYPES:\n                data.timing[mt] = count", "            if 0 <= mt:\n                data.timing[mt] = count"),
+    ("c02_manager_ignores_pause", "C02", M,
+     "            self.pause_subscription(src_module, self.message)\n            self.send_ack(src_module)",
+     "            self.send_ack(src_module)"),
+    ("c02_client_resume_keeps_paused", "C02", CL,
+     "            else:\n                self._subscribed_types |= msg_set\n                self._paused_types -= msg_set\n        else:\n            raise TypeError",
+     "            else:\n                self._subscribed_types |= msg_set\n        else:\n            raise TypeError"),
+    ("c02_second_sub_all_reverted", "C02", M,
+     "            src_module.subs.clear()\n\n            self.subscriptions[sub.msg_type].add(src_module)\n            src_module.subs.add(sub.msg_type)",
+     "            self.subscriptions[sub.msg_type].add(src_module)\n            for sub_type in src_module.subs:\n                self.subscriptions[sub_type].discard(src_module)\n            src_module.subs.clear()\n            src_module.subs.add(sub.msg_type)"),
+    ("c02_unsub_all_keeps_manager_all", "C02", M,
+     "        if unsub.msg_type == ALL_MESSAGE_TYPES:\n            self.subscriptions[unsub.msg_type].discard(src_module)\n",
+     "        if unsub.msg_type == ALL_MESSAGE_TYPES:\n"),
+    ("c06_dyn_cursor_wraps_late", "C06", M,
+     "            if self.next_dynamic_mod_id_offset == MAX_DYN_IDS:", "            if self.next_dynamic_mod_id_offset > MAX_DYN_IDS:"),
+    ("c06_dyn_in_use_test_removed", "C06", M,
+     "            if mod_id not in current_ids:\n                return mod_id", "            if True:\n                return mod_id"),
+    ("c06_unique_inverted", "C06", M,
+     "module.unique = msg.data.allow_multiple == 0", "module.unique = msg.data.allow_multiple != 0"),
+    ("c06_client_context_positional", "C06", CL,
+     "c.connect(server_name, logger_status=logger_status, allow_multiple=allow_multiple)", "c.connect(server_name, logger_status, allow_multiple)"),
+    ("c06_name_check_dropped", "C06", M,
+     "                    if (m.unique or module.unique) and (m.name == module.name):", "                    if False:"),
     ("c03_size_check_off_by_one", "C03", M,
      "if data_size < 0 or data_size > len(self.data_buffer):", "if data_size < -1 or data_size > len(self.data_buffer):"),
 ]
